@@ -2,7 +2,8 @@
    Prop quantifying over ALL histories [h : list (nat * op)] and both initial classes); model: C02/Model.v.
    The theorems are about the model; they speak about pywhy_graphs only through the tie (harness/c02.py). *)
 From Coq Require Import List.
-From PG Require Import C02.Model C02.Spec C02.ProofsInv C02.ProofsRefine C02.ProofsQueries C02.ProofsEdges C02.Examples.
+From PG Require Import C02.Model C02.Spec C02.ProofsInv C02.ProofsRefine C02.ProofsQueries C02.ProofsEdges C02.ProofsCount
+  C02.ProofsAttrs C02.Examples.
 
 (* every layer has exactly the node set, stored edges join nodes of the graph, dict keys are unique — in every
    state of every object reachable by any history (unbounded) *)
@@ -16,10 +17,23 @@ Proof. exact ProofsRefine.mixed_refines. Qed.
 Print Assumptions mixed_refines.
 
 (* has_edge / number_of_edges(u,v) / get_edge_data / neighbors / to_undirected / to_directed / size answer from the
-   abstract edge sets in every reachable state (unbounded); number_of_edges(l) and degree as cardinalities: tie only *)
+   abstract edge sets in every reachable state (unbounded) *)
 Theorem mixed_queries : mixed_queries_stmt.
 Proof. exact ProofsQueries.mixed_queries. Qed.
 Print Assumptions mixed_queries.
+
+(* number_of_edges(edge_type=l) = cardinality of the layer's abstract edge set, degree()[l][n] = its incidences at n
+   (for EVERY duplicate-free enumeration of the set, and one exists), number_of_edges() = the sum over layers,
+   the edges()/adj tables have an entry exactly for the abstract edges — in every reachable state (unbounded) *)
+Theorem mixed_queries_counts : mixed_queries_counts_stmt.
+Proof. exact ProofsCount.mixed_queries_counts. Qed.
+Print Assumptions mixed_queries_counts.
+
+(* refinement including node / edge / graph attribute dicts with dict.update semantics (unbounded); copy duplicates the
+   abstract (structure, attributes) pair *)
+Theorem mixed_refines_attrs : mixed_refines_attrs_stmt.
+Proof. exact ProofsAttrs.mixed_refines_attrs. Qed.
+Print Assumptions mixed_refines_attrs.
 
 (* every abstract edge of a layer is stored exactly once, in every reachable state (unbounded): the stored list that
    number_of_edges(edge_type=l) and degree count is duplicate-free modulo the layer's kind *)
